@@ -87,9 +87,11 @@ def actOf (j : Json) : Act :=
   if str j "act" == "put" then .put ⟨str j "key", 0, (arr j "owners").map refOf, nat j "body"⟩
   else .del (str j "key")
 
-/-- the scenario's interference: the listed writes, in order, right before the real write of object `i` -/
+/-- the scenario's interference: the listed writes, in order, right before the real write of
+object `i`; `i = -1`: between the validate phase and the establish phase -/
 def interfOf (tp : List Json) : Interf :=
-  { pre := fun i => (tp.filter fun j => nat j "i" == i).map actOf }
+  { mid := (tp.filter fun j => int j "i" < 0).map actOf
+    pre := fun i => (tp.filter fun j => int j "i" == (i : Int)).map actOf }
 
 /-- mirror of `uniqueResourceIdentifier` (GVK string + "/" + name) used by the
 reconciler to sort references, descending -/
